@@ -330,11 +330,58 @@ def r20_3(ctx, fx):
         ctx.ob("R20.3", "extract_next_batch/discard-only-if-block-alone-exceeds-max", ok, site=fn.site(p.node), cfg=fx.cfg, detail=why)
 
 
+def r20_5(ctx, fx):
+    """"outgoing responses are split": the presence part of a response is cut into messages too.  send_response discards a message
+    whose encoding exceeds MAX_MESSAGE_SIZE (and returns Ok), so handing *all* presences of a response to `presences_message` at once
+    drops a large answer (the DontHave answer to one legal 4 MiB wantlist) as a whole.  In the body that builds the argument of
+    `presences_message` an accumulated encoded size is compared with MAX_MESSAGE_SIZE before the call, the accumulated quantity adds a
+    positive per-item term, and the call is made once per batch (inside a loop)."""
+    key = BS + "send_response::{closure#0}"
+    fn = ctx.fn(fx, key, "R20.5")
+    if fn is None:
+        return
+    pm = fn.calls(r"bitswap::presences_message$")
+    ctx.anchor("R20.5", "send_response: presences_message", len(pm), 1, cfg=fx.cfg)
+    mm = fx.const(BS + "config::MAX_MESSAGE_SIZE")
+    is_b = lambda f, o: any(r == ("const", BS + "config::MAX_MESSAGE_SIZE") for r in f.roots(o)) or (isinstance(mm, int) and f.const_value(o) == mm)
+    is_q = lambda f, o: has_add(f, o) and not is_b(f, o)
+    for i, c in enumerate(pm):
+        # bodies that build the batch: this one, and a helper whose result is the argument
+        holders = [fn]
+        for x in guards.rootstrs(fn, c.args[0]):
+            if x.startswith("call:protocol::libp2p::bitswap::") and fx.has(x[5:]):
+                holders.append(fx.fn(x[5:]))
+        cut, over = False, False
+        for h in holders:
+            facts = guards.edge_facts(h, is_q, is_b)
+            cmpn = {cn for *_, cn in facts}
+            if h is fn:
+                cmpn = {cn for cn in cmpn if c.node in fn.reach([cn])}
+            else:
+                ctx.bodies.add((fx.cfg, h.key))
+            cut = cut or bool(cmpn)
+            for cn in cmpn:
+                at = h.stmt(cn) if not h.is_term(cn) else None
+                for o in ([at["rv"]["a"], at["rv"]["b"]] if at and "rv" in at else []):
+                    if is_q(h, o):
+                        rs = guards.rootstrs(h, o)
+                        consts = [fx.const(x[6:]) if not x[6:].lstrip("-").isdigit() else int(x[6:]) for x in rs if x.startswith("const:")]
+                        over = over or any(isinstance(v, int) and v >= 1 for v in consts) or any(x.startswith("call:") and re.search(r"encoded_len$|::len$", x) for x in rs)
+        ctx.ob("R20.5", "send_response/presences#%d-cut-by-encoded-size-vs-MAX_MESSAGE_SIZE" % i, cut, site=fn.site(c.node), cfg=fx.cfg,
+               detail="an oversized presence message is dropped whole with Ok(()): the batch must be cut before it is encoded")
+        if cut:
+            ctx.ob("R20.5", "send_response/presences#%d-encoded-size-adds-a-positive-per-item-term" % i, over, site=fn.site(c.node), cfg=fx.cfg)
+            in_loop = c.node in fn.reach([n for n, _ in fn.succs(c.node)])
+            ctx.ob("R20.5", "send_response/presences_message#%d-called-once-per-batch(in-a-loop)" % i, in_loop or holders[1:] != [], site=fn.site(c.node), cfg=fx.cfg,
+                   detail="the remainder after a cut is sent in further messages, not dropped")
+
+
 def run(ctx):
     fx = ctx.facts("default")
     r20_1(ctx, fx)
     r20_2(ctx, fx)
     r20_3(ctx, fx)
     r20_4(ctx, fx)
+    r20_5(ctx, fx)
     ctx.assume("multihash_codetable::Code::digest computes the named hash of its input; Multihash::wrap/Cid::new only validate sizes/versions")
     ctx.assume("VecDeque::drain(..n) yields the first n elements in order")
